@@ -74,6 +74,9 @@ def short_digest(obj):
     return hashlib.sha256(canon(obj).encode()).hexdigest()[:16]
 
 
+_SIM_DIR = os.path.dirname(os.path.abspath(__file__))
+
+
 class _Sink:
     def write(self, s):
         return len(s)
@@ -126,6 +129,13 @@ class World:
     def abstract_state(self):
         return None
 
+    def prop_of(self, step):
+        """Property whose oracle judges this kind of step."""
+        for p, ops in self.FALSIFIERS.items():
+            if step["op"] in ops:
+                return p
+        return self.PROPS[0]
+
     # ---- helpers -------------------------------------------------------------
     def probe(self, name, n=1):
         self.stats["probe:" + name] += n
@@ -172,6 +182,19 @@ class World:
             outcome = op(step) or "ok"
         except Skip:
             outcome = "skipped"
+        except HarnessError:
+            raise
+        except Exception as e:  # noqa: BLE001
+            # An exception that escapes from *tracklib* frames while the oracle reads the
+            # real objects is a violation (the observable state cannot be read); one
+            # raised by simulator / model code is a harness error.
+            import traceback
+            tb = traceback.extract_tb(e.__traceback__)
+            if not tb or tb[-1].filename.startswith(_SIM_DIR):
+                raise
+            self.fail(self.prop_of(step), "observe.raised", "observing the result of %s raised %s: %s"
+                      % (step["op"], type(e).__name__, e), "readable state", repr(e))
+            outcome = "raised"
         self.stats["op:" + step["op"]] += 1
         self.stats["outcome:" + outcome] += 1
         self.stats["steps"] += 1
